@@ -289,7 +289,7 @@ func ruleScoDecl(c *Ctx, r *R) {
 					return true
 				})
 				if fresh {
-					r.ok(k, "parameter slot in the freshly installed table of the function")
+					r.ok(k, "parameter registration: judged by C09/FRM-PARAMSLOT")
 					return true
 				}
 			}
